@@ -189,6 +189,16 @@ func TestC10Converged(t *testing.T) {
 			if err != nil {
 				c.Fatalf("n%d cannot send a routed ping to n%d (distance %d): %v", a, b, topo.dist(a, b), err)
 			}
+			if c.Chance("cleaner-tick", 1, 4) {
+				// The once-a-minute clean-up of the ping handlers runs at both ends
+				// while the request is under way (nothing of it is old enough to go).
+				for _, n := range []*vnet.Node{A, B} {
+					_ = n.Rtr.PingPong.Clean(nil)
+					_ = n.Rtr.HelloPing.Clean(nil)
+					_ = n.Rtr.ErrorPing.Clean(nil)
+				}
+				c.Class("ping-handler-clean-up-while-the-request-is-under-way")
+			}
 			c10Drain(c, ms, 5000)
 			select {
 			case <-notify:
@@ -253,6 +263,28 @@ func TestC10Converged(t *testing.T) {
 				if fit {
 					c.Class("routed-frame-fills-a-link-buffer-exactly")
 				}
+			}
+			// The requester announces itself again (as it does every few minutes)
+			// and pings the same router once more.
+			if c.Chance("again-after-announce", 1, 4) {
+				time.Sleep(3 * time.Millisecond)
+				if err := A.Rtr.VerifAnnounce(); err != nil {
+					c.Fatalf("announce at n%d failed: %v", a, err)
+				}
+				c10Drain(c, ms, 20000)
+				time.Sleep(3 * time.Millisecond)
+				ms.vn.Crossings = nil
+				notify2, _, err := A.Rtr.PingPong.Send(B.IP(), false, 0)
+				if err != nil {
+					c.Fatalf("n%d cannot send a second routed ping to n%d: %v", a, b, err)
+				}
+				c10Drain(c, ms, 5000)
+				select {
+				case <-notify2:
+				default:
+					c.Fatalf("second routed ping n%d -> n%d (distance %d), sent after n%d announced itself again: the reply never reached the sender", a, b, topo.dist(a, b), a)
+				}
+				c.Class("second-ping-after-a-new-announcement")
 			}
 			d := topo.dist(a, b)
 			c.Eval(fmt.Sprintf("%s|%d->%d", topo, a, b), d >= 3, func() any {
